@@ -103,7 +103,18 @@ func RunOne(bc *ugo.Bytecode, i int) string {
 // RunOn is RunOne on a given VM.
 func RunOn(vm *ugo.VM, i int) string {
 	var log []string
+	// values nested deeper than any global bound on "nesting seen so far" a broken implementation might keep per
+	// process: private to this VM, built by the host
+	var deepA ugo.Object = ugo.Array{ugo.Int(i)}
+	for k := 0; k < 700; k++ {
+		deepA = ugo.Array{deepA}
+	}
+	var deepM ugo.Object = ugo.Map{"k": ugo.Int(i)}
+	for k := 0; k < 300; k++ {
+		deepM = ugo.Map{"k": deepM}
+	}
 	g := ugo.Map{
+		"DEEPA": deepA, "DEEPM": deepM,
 		"G": ugo.Int(100 * (i + 1)),
 		"L": &ugo.Function{Name: "L", Value: func(args ...ugo.Object) (ugo.Object, error) {
 			parts := make([]string, len(args))
@@ -227,6 +238,10 @@ fmt := import("fmt")
 try { thr(2) } catch e { r = append(r, fmt.Sprintf("%+v", e)) }
 if G > 100 { throw "last " + string(G) }
 return r`},
+	{"deeply nested private values are turned into text", `
+global (G, L, DEEPA, DEEPM)
+s := string(DEEPA); t := string(DEEPM)
+return [len(s), len(t), s[698:706], G]`},
 	{"source modules with state", `
 global (G, L)
 c := import("cnt"); s := import("state")
